@@ -85,9 +85,12 @@ class TypeScriptMagicNumberAnalyzer(TypeScriptBaseAnalyzer):  # thailint: ignore
             Numeric value (int or float) or None if parsing fails
         """
         text = self.extract_node_text(node)
+        if text.endswith("n"):
+            text = text[:-1]  # BigInt literal (10n): the digits carry the value
+        lowered = text.lower()
         try:
-            # Try int first
-            if "." not in text and "e" not in text.lower():
+            # Try int first; in a prefixed literal an "e" is a hex digit, not an exponent
+            if lowered.startswith(("0x", "0o", "0b")) or ("." not in text and "e" not in lowered):
                 return int(text, 0)  # Handles hex, octal, binary
             # Otherwise float
             return float(text)
